@@ -11,5 +11,6 @@ CONSTANTS
   Alphabet = "tiny"
   Prefits = {"none"}
   CfgSel = "core"
+  Sample = 0
   Depth = 2
 CHECK_DEADLOCK FALSE
